@@ -50,6 +50,9 @@ def run_cases(run, modname, fname, cases, hash_seeds=(0,), per_case_timeout=60, 
     if not cases:
         return
     workers = workers or WORKERS
+    # starting a worker costs several seconds (importing the library pulls in scipy/matplotlib through arsenal):
+    # do not start more workers than the job can keep busy
+    workers = min(workers, max(len(hash_seeds), len(cases) // 25 + 1))
     per_seed_workers = max(1, workers // max(1, len(hash_seeds)))
     if chunk is None:
         chunk = max(1, min(25, len(cases) // (per_seed_workers * 4) or 1))
